@@ -64,12 +64,14 @@ func runC03(c *Ctx, r *Report) {
 	r.Rule("C03/framing", "serialize: payload, raw copy, 1.0 delimiter and 1.1 chunk framing with the byte length of the value that follows, on all 8 paths", 8)
 	r.Rule("C03/write-sequence", "sendRPC writes framed bytes + return, one more return exactly under 1.1, then waits; the response reports the same serialisation", 4)
 	r.Rule("C03/selfclose-guard", "ForceSelfClosingTags rewrites a pattern match only when its opening tag name equals its closing tag name (the pattern alone has no back-reference)", 1)
+	r.Rule("C03/op-options-applied", "netconf.NewOperation applies the full per-operation option list (filter, defaults, commit settings) in order", 1)
 	r.Rule("C03/element-wiring", "RFC element names in struct tags; builders wire each parameter to its element; public methods pass arguments in position", 40)
 	r.Rule("C03/options", "NETCONF operation options store the setting they name", 14)
 
 	checkSerializeFraming(c, r)
 	checkSendRPCSequence(c, r)
 	checkSelfClosingGuard(c, r)
+	checkOperationApplyLoop(c, r, "C03/op-options-applied", "driver/netconf")
 	checkElementTags(c, r)
 	checkBuilderWiring(c, r)
 	only := map[string]bool{}
